@@ -448,14 +448,15 @@ def main(argv=None):
                     info = playback(u, r.harness, workspaces[u.name], logdir)
                 except Exception as e:  # noqa
                     info["native_replay"] = f"replay-error: {e}"
-            path = REPLAYS / f"{prop}-{r.unit}-{r.harness.name}.json"
+            safe_name = re.sub(r"[^A-Za-z0-9_.-]", "_", r.harness.name)
+            path = REPLAYS / f"{prop}-{r.unit}-{safe_name}.json"
             log_txt = Path(r.log_path).read_text(errors="replace")
             fails = [x for rr, x in violations if rr is r] + [x for x in r.failed if not any(x is y for rr, y in violations if rr is r)]
             path.write_text(json.dumps({
                 "property": prop, "unit": r.unit, "harness": r.harness.name, "tier": tier,
                 "failed_obligations": [{"check": x.name, "description": x.description, "location": x.location} for x in fails],
                 "functions_under_contract": r.harness.functions,
-                "verifier": "Kani 0.68.0 / CBMC 6.11.0",
+                "verifier": "Kani 0.68.0 / CBMC 6.11.0" if "CBMC" in r.solver else r.solver,
                 "verifier_output_tail": log_txt[-6000:],
                 "counterexample": info["counterexample"],
                 "native_replay": info["native_replay"],
